@@ -48,19 +48,33 @@ theorem coreOp_fail_state (s : St) (o : Core.Op) (ds : List (Nat × Option Nat))
               | update m => exact finishUpdate_fail_state s s3 m ds h
               | _ => simp at h
 
+/-- a checked message is an ibc core message: a transaction of one message is never refused as mixed -/
+theorem isChecked_isIbcCore (m : Op) (h : isChecked m = true) : isIbcCore m = true := by
+  cases m with
+  | updateClient c w hd ibc => cases w <;> simp_all [isChecked, isIbcCore]
+  | misbehaviour c k ibc => cases k <;> simp_all [isChecked, isIbcCore]
+  | chanAck ch w ibc => cases w <;> simp_all [isChecked, isIbcCore]
+  | _ => simp_all [isChecked]
+
+theorem mixed_single (m : Op) : mixedRefusal [m] = false := by
+  unfold mixedRefusal
+  by_cases h : isChecked m = true
+  · simp [h, isChecked_isIbcCore m h]
+  · simp [h]
+
 theorem txStep_core (s : St) (o : Core.Op) (ds : List (Nat × Option Nat)) : txStep s [.core o ds] = step s (.core o ds) := by
   have h := coreOp_fail_state s o ds
-  simp only [txStep, List.findSome?, nestedRefusal, signerRefusal, anteAll, anteMsg, execAll, execMsg, step]
+  simp only [txStep, List.findSome?, nestedRefusal, signerRefusal, mixed_single, Bool.false_eq_true, if_false, anteAll, anteMsg, execAll, execMsg, step]
   generalize coreOp s o ds = x at h ⊢
   obtain ⟨a, r⟩ := x
   cases r <;> simp_all
 
 theorem txStep_createClient (s : St) (chain : Nat) (p : CParams) (ht : Nat) (cs : Cons) :
     txStep s [.createClient chain p ht cs] = step s (.createClient chain p ht cs) := by
-  simp [txStep, List.findSome?, nestedRefusal, signerRefusal, anteAll, anteMsg, execAll, execMsg, step, createClient]
+  simp [txStep, List.findSome?, nestedRefusal, signerRefusal, mixed_single, Bool.false_eq_true, if_false, anteAll, anteMsg, execAll, execMsg, step, createClient]
 
 theorem txStep_setCanonical (s : St) (c : Nat) : txStep s [.setCanonical c] = step s (.setCanonical c) := by
-  simp only [txStep, List.findSome?, nestedRefusal, signerRefusal, anteAll, anteMsg, execAll, execMsg, step]
+  simp only [txStep, List.findSome?, nestedRefusal, signerRefusal, mixed_single, Bool.false_eq_true, if_false, anteAll, anteMsg, execAll, execMsg, step]
   generalize setCanonical s c = x
   obtain ⟨a, r⟩ := x
   cases r <;> simp
@@ -71,10 +85,10 @@ theorem txStep_updateClient (s : St) (c : Nat) (w : Wrap) (hd : Hdr) (ibc : Bool
   | nested => simp [txStep, List.findSome?, nestedRefusal, step, updateClient]
   | storedProposal => simp [txStep, List.findSome?, nestedRefusal, step, updateClient]
   | wrapped => simp [txStep, List.findSome?, nestedRefusal, signerRefusal, step, updateClient]
-  | nestedWrapped => simp [txStep, List.findSome?, nestedRefusal, signerRefusal, anteAll, anteMsg, execAll, execMsg, step, updateClient]
+  | nestedWrapped => simp [txStep, List.findSome?, nestedRefusal, signerRefusal, mixed_single, Bool.false_eq_true, if_false, anteAll, anteMsg, execAll, execMsg, step, updateClient]
   | top =>
     have hc := handleUpdate_clients s c hd
-    simp only [txStep, List.findSome?, nestedRefusal, signerRefusal, anteAll, anteMsg, execAll, execMsg, step, updateClient]
+    simp only [txStep, List.findSome?, nestedRefusal, signerRefusal, mixed_single, Bool.false_eq_true, if_false, anteAll, anteMsg, execAll, execMsg, step, updateClient]
     generalize handleUpdate s c hd = x at hc ⊢
     obtain ⟨s1, oe⟩ := x
     cases oe with
@@ -88,21 +102,21 @@ theorem txStep_updateClient (s : St) (c : Nat) (w : Wrap) (hd : Hdr) (ibc : Bool
 
 theorem txStep_misbehaviour (s : St) (c : Nat) (k : MKind) (ibc : Bool) :
     txStep s [.misbehaviour c k ibc] = step s (.misbehaviour c k ibc) := by
-  simp only [txStep, List.findSome?, nestedRefusal, signerRefusal, anteAll, anteMsg, execAll, execMsg, step, misbehaviour]
+  simp only [txStep, List.findSome?, nestedRefusal, signerRefusal, mixed_single, Bool.false_eq_true, if_false, anteAll, anteMsg, execAll, execMsg, step, misbehaviour]
   cases hg : getClient s c with
   | none => simp [hg]
   | some cl =>
     cases k <;> cases ibc <;> by_cases hcan : (lookup s.c2r c).isSome = true <;> simp [hg, hcan]
 
 theorem txStep_chanInit (s : St) (c : Nat) : txStep s [.chanInit c] = step s (.chanInit c) := by
-  simp only [txStep, List.findSome?, nestedRefusal, signerRefusal, anteAll, anteMsg, execAll, execMsg, step, chanInit]
+  simp only [txStep, List.findSome?, nestedRefusal, signerRefusal, mixed_single, Bool.false_eq_true, if_false, anteAll, anteMsg, execAll, execMsg, step, chanInit]
   repeat' split
   all_goals simp_all
 
 theorem txStep_chanAck (s : St) (ch : Nat) (w : ChanRoute) (ibc : Bool) : txStep s [.chanAck ch w ibc] = step s (.chanAck ch w ibc) := by
   cases w with
   | ack =>
-    simp only [txStep, List.findSome?, nestedRefusal, signerRefusal, anteAll, anteMsg, execAll, execMsg, step, chanAck]
+    simp only [txStep, List.findSome?, nestedRefusal, signerRefusal, mixed_single, Bool.false_eq_true, if_false, anteAll, anteMsg, execAll, execMsg, step, chanAck]
     cases hf : s.chans.find? (·.id == ch) with
     | none => simp
     | some cc =>
@@ -113,12 +127,12 @@ theorem txStep_chanAck (s : St) (ch : Nat) (w : ChanRoute) (ibc : Bool) : txStep
         · simp [hx, hl]
         · cases ibc <;> simp [hx, hf, hl]
   | nestedAck =>
-    simp only [txStep, List.findSome?, nestedRefusal, signerRefusal, anteAll, anteMsg, execAll, execMsg, step, chanAck]
+    simp only [txStep, List.findSome?, nestedRefusal, signerRefusal, mixed_single, Bool.false_eq_true, if_false, anteAll, anteMsg, execAll, execMsg, step, chanAck]
     cases hf : s.chans.find? (·.id == ch) with
     | none => simp
     | some cc => cases ibc <;> simp
   | confirm =>
-    simp only [txStep, List.findSome?, nestedRefusal, signerRefusal, anteAll, anteMsg, execAll, execMsg, step, chanAck]
+    simp only [txStep, List.findSome?, nestedRefusal, signerRefusal, mixed_single, Bool.false_eq_true, if_false, anteAll, anteMsg, execAll, execMsg, step, chanAck]
     cases hf : s.chans.find? (·.id == ch) with
     | none => simp
     | some cc => cases ibc <;> simp
@@ -137,7 +151,7 @@ theorem txStep_single (s : St) (op : Op) : txStep s [op] = step s op := by
 
 /-- the empty transaction changes nothing -/
 theorem txStep_nil (s : St) : txStep s [] = (s, .ok) := by
-  simp [txStep, anteAll, execAll]
+  simp [txStep, anteAll, execAll, mixedRefusal]
 
 /-- every transaction carries at most one message -/
 def SingleMsg (txs : List (List Op)) : Prop := ∀ t ∈ txs, t.length ≤ 1
